@@ -1,43 +1,543 @@
-//! C12 — no input or configuration crashes darklua (crash/hang monitor).
+//! C12 — no input or configuration crashes darklua (crash / hang monitor over worker processes).
+//!
+//! The framework supplies the observation: a panic inside `run` is caught and reported with its
+//! location; a worker that dies (abort, stack overflow, signal) or exceeds the per-case CPU budget is
+//! attributed to the journaled case, which is replayed alone in a fresh process before it counts.
+
+use super::c19_model as model;
+use crate::corpus;
 use crate::dl;
 use crate::framework::*;
+use crate::gen::prog::{self, Feat};
+use crate::gen::shrink::shrink_source;
+use crate::reflua::lexer::lex;
+use crate::reflua::print::print_block;
 use crate::rng::{hash64, Rng};
 use serde_json::{json, Value};
 
 #[derive(Default)]
-pub struct C12 {}
+pub struct C12 {
+    seeds: Vec<String>,
+    loaded: bool,
+}
+
+const MAX_INPUT: usize = 4096;
+/// documented nesting bound (DESIGN.md §6 C12): deeper nesting exhausts the native stack of the parser dependency
+const MAX_NEST: usize = 64;
+
+const FRAGMENTS: [&str; 60] = [
+    "local", " ", "x", "=", "1", "(", ")", "function", "end", "\n", "\"", "--[[", "]]", "{", "}", "if", "then", "..", "-", "`", "\\", "else", "elseif", "while", "do", "repeat", "until", "for", "in", "return", "break", "continue", "type", "export", "::", ":", "->", "<", ">", "?", "|", "&", "...", "[", "]",
+    "[[", "[=[", "'", ",", ";", "0x", "1e", "0b", "_", "@", "#", "not", "and", "nil", "\r",
+];
+
+const MULTIBYTE: [&str; 8] = ["é", "日", "😀", "\u{feff}", "\u{0}", "\u{7f}", "\u{2028}", "\u{a0}"];
+
+impl C12 {
+    fn load(&mut self) {
+        if self.loaded {
+            return;
+        }
+        self.loaded = true;
+        for it in corpus::load() {
+            if it.text.len() <= MAX_INPUT && !it.text.is_empty() {
+                self.seeds.push(it.text);
+            }
+        }
+    }
+}
+
+fn nested(kind: usize, depth: usize) -> String {
+    match kind {
+        0 => format!("{}{}", "do ".repeat(depth), "end ".repeat(depth)),
+        1 => format!("return {}1{}", "(".repeat(depth), ")".repeat(depth)),
+        2 => format!("return {}{}", "{".repeat(depth), "}".repeat(depth)),
+        3 => format!("return {}1", "-".repeat(0) + &"not ".repeat(depth)),
+        4 => format!("{}x(){}", "if a then ".repeat(depth), " end".repeat(depth)),
+        5 => format!("return {}nil{}", "function() return ".repeat(depth), " end".repeat(depth)),
+        6 => format!("local x: {}number{} = 1", "{".repeat(depth), "}".repeat(depth)),
+        7 => format!("return {}x{}", "`{".repeat(depth), "}`".repeat(depth)),
+        8 => format!("return {}1", "if a then 1 else ".repeat(depth)),
+        9 => format!("return a{}", ".b".repeat(depth * 8)),
+        10 => format!("return a{}", "()".repeat(depth * 8)),
+        _ => format!("return a{}", "[1]".repeat(depth * 8)),
+    }
+}
+
+fn chain(op: &str, n: usize, right_deep: bool, leaf: &str) -> String {
+    if right_deep {
+        let mut s = String::from("return ");
+        for _ in 0..n {
+            s.push_str(leaf);
+            s.push_str(op);
+            s.push('(');
+        }
+        s.push_str(leaf);
+        s.push_str(&")".repeat(n));
+        s
+    } else {
+        format!("return {}{}", format!("{}{}", leaf, op).repeat(n), leaf)
+    }
+}
+
+/// deterministic structural inputs (within the documented bounds)
+fn structural() -> Vec<String> {
+    let mut v = vec![];
+    for kind in 0..12 {
+        for depth in [1, 2, 8, 32, MAX_NEST] {
+            v.push(nested(kind, depth));
+        }
+    }
+    for op in [" + ", " .. ", " and ", " or ", " == ", " ^ ", " // ", " < "] {
+        for leaf in ["1", "x", "'a'", "f()", "nil", "true"] {
+            for n in [2usize, 16, 40, 64] {
+                v.push(chain(op, n, false, leaf));
+                v.push(chain(op, n, true, leaf));
+            }
+        }
+    }
+    v.push(format!("return {{{}}}", "1,".repeat(10_000)));
+    v.push(format!("return {{{}}}", "a=1;".repeat(2_000)));
+    v.push(format!("local {} = 1", (0..200).map(|i| format!("v{}", i)).collect::<Vec<_>>().join(",")));
+    v.push(format!("return '{}'", "x".repeat(100_000)));
+    v.push(format!("return [[{}]]", "line\n".repeat(5_000)));
+    v.push(format!("--{}\nreturn 1", "c".repeat(100_000)));
+    v.push(format!("{}return 1", "\n".repeat(50_000)));
+    v.push(format!("return {}", "x".repeat(10_000)));
+    v.push(format!("f{}", "''".repeat(500)));
+    v.push(format!("return 1{}", "0".repeat(400)));
+    v.push(format!("return 0x{}", "f".repeat(400)));
+    v.push(format!("return 0.{}1e-400", "0".repeat(400)));
+    v.push(format!("local function f({}) end", (0..250).map(|i| format!("p{}", i)).collect::<Vec<_>>().join(",")));
+    v.push(format!("return f({})", (0..300).map(|i| format!("{}", i)).collect::<Vec<_>>().join(",")));
+    v.push(format!("{}", "local x = 1 ".repeat(3000)));
+    v.push(format!("type T = {}number", "number | ".repeat(500)));
+    v.push(format!("type T = {}number{}", "{".repeat(MAX_NEST), "}".repeat(MAX_NEST)));
+    v.push(format!("return `{}`", "{x}".repeat(500)));
+    v
+}
+
+fn mutate(r: &mut Rng, seed: &str) -> String {
+    let mut s: Vec<char> = seed.chars().collect();
+    let n = 1 + r.below(4);
+    for _ in 0..n {
+        if s.is_empty() {
+            break;
+        }
+        let i = r.below(s.len());
+        match r.below(9) {
+            0 => {
+                s.remove(i);
+            }
+            1 => {
+                let c = s[i];
+                s.insert(i, c);
+            }
+            2 => {
+                let frag = *r.pick(&FRAGMENTS);
+                for (k, c) in frag.chars().enumerate() {
+                    s.insert((i + k).min(s.len()), c);
+                }
+            }
+            3 => {
+                let mb = *r.pick(&MULTIBYTE);
+                for (k, c) in mb.chars().enumerate() {
+                    s.insert((i + k).min(s.len()), c);
+                }
+            }
+            4 => {
+                s.truncate(i);
+            }
+            5 => {
+                let j = r.below(s.len());
+                s.swap(i, j);
+            }
+            6 => {
+                // delete a span
+                let j = (i + 1 + r.below(20)).min(s.len());
+                s.drain(i..j);
+            }
+            7 => {
+                // duplicate a span
+                let j = (i + 1 + r.below(30)).min(s.len());
+                let span: Vec<char> = s[i..j].to_vec();
+                for (k, c) in span.into_iter().enumerate() {
+                    s.insert(j + k, c);
+                }
+            }
+            _ => {
+                s[i] = *r.pick(&['(', ')', '{', '}', '"', '\'', '`', '\\', '\n', '\r', '[', ']', '=', '-', '.', ':', '\0', ' ']);
+            }
+        }
+    }
+    let mut out: String = s.into_iter().collect();
+    if out.len() > MAX_INPUT {
+        let mut cut = MAX_INPUT;
+        while !out.is_char_boundary(cut) {
+            cut -= 1;
+        }
+        out.truncate(cut);
+    }
+    out
+}
+
+fn token_mutate(r: &mut Rng, seed: &str) -> Option<String> {
+    let lx = lex(seed, true).ok()?;
+    let toks: Vec<(usize, usize)> = lx.tokens.iter().filter(|t| t.end > t.start).map(|t| (t.start, t.end)).collect();
+    if toks.len() < 2 {
+        return None;
+    }
+    let i = r.below(toks.len());
+    let (a, b) = toks[i];
+    let mut out = String::new();
+    match r.below(5) {
+        0 => {
+            out.push_str(&seed[..a]);
+            out.push_str(&seed[b..]);
+        }
+        1 => {
+            out.push_str(&seed[..b]);
+            out.push(' ');
+            out.push_str(&seed[a..b]);
+            out.push_str(&seed[b..]);
+        }
+        2 => {
+            let j = r.below(toks.len());
+            let (c, d) = toks[j];
+            if c >= b {
+                out.push_str(&seed[..a]);
+                out.push_str(&seed[c..d]);
+                out.push_str(&seed[b..c]);
+                out.push_str(&seed[a..b]);
+                out.push_str(&seed[d..]);
+            } else {
+                return None;
+            }
+        }
+        3 => {
+            // multi-byte character at the token boundary
+            out.push_str(&seed[..a]);
+            out.push_str(*r.pick(&MULTIBYTE));
+            out.push_str(&seed[a..]);
+        }
+        _ => {
+            out.push_str(&seed[..a]);
+            out.push_str(*r.pick(&FRAGMENTS));
+            out.push_str(&seed[b..]);
+        }
+    }
+    Some(out)
+}
+
+fn sanitize_rule(v: &Value) -> Value {
+    // rules reading real files are given inline text instead (the memory back end has no such file)
+    match v {
+        Value::Object(o) if o.contains_key("file") => {
+            let mut m = o.clone();
+            m.remove("file");
+            m.insert("text".into(), json!("banner"));
+            Value::Object(m)
+        }
+        other => other.clone(),
+    }
+}
+
+fn random_pipeline(r: &mut Rng) -> (String, Vec<String>) {
+    let n = 1 + r.below(6);
+    let mut rules = vec![];
+    let mut names = vec![];
+    for _ in 0..n {
+        let rule = sanitize_rule(&model::random_rule(r));
+        let name = rule.as_str().map(|s| s.to_string()).or_else(|| rule["rule"].as_str().map(|s| s.to_string())).unwrap_or_default();
+        // filters would make the rule skip the single file under test: drop them
+        let rule = match rule {
+            Value::Object(mut o) => {
+                o.remove("apply_to_files");
+                o.remove("skip_files");
+                Value::Object(o)
+            }
+            other => other,
+        };
+        names.push(name);
+        rules.push(rule);
+    }
+    let generator = match r.below(8) {
+        0 => json!("dense"),
+        1 => json!("readable"),
+        2 => json!({"name": "dense", "column_span": *r.pick(&[0, 1, 2, 3, 5, 10, 40, 80, 200])}),
+        3 => json!({"name": "readable", "column_span": *r.pick(&[0, 1, 2, 3, 5, 10, 40, 80, 200])}),
+        _ => json!("retain_lines"),
+    };
+    let cfg = json!({"rules": rules, "generator": generator});
+    (model::to_text(&cfg, None), names)
+}
 
 impl Monitor for C12 {
     fn id(&self) -> &'static str {
         "C12"
     }
     fn rule_text(&self) -> String {
-        "placeholder".into()
+        format!("parse cases (both parser modes): deterministic structural inputs within the documented bounds (12 nesting shapes at depths 1..{}, left- and right-deep operator chains of up to 64 operands for 8 operators x 6 leaf kinds, 10^4-element tables, very long tokens/lines/parameter lists), every seed of the corpus truncated at every 1/64th of its length, random fragment soups, corpus seeds and generated programs mutated at character level (delete / duplicate / swap / insert fragment or multi-byte character / truncate / span delete / span duplicate) and at token level (delete / duplicate / swap / multi-byte character at the token boundary / replace by fragment), inputs <= {} bytes. process cases: parsable corpus seeds and generated programs (plain, Luau, typed) x pipelines of 1-6 rules drawn from all 32 rules with randomised valid properties x retain_lines / dense / readable with column spans incl. 0 and 1: process must return (no panic, abort or hang), a successful output must parse again, an error must format. Non-trivial = the input is accepted by the parser (parse cases) or at least one rule ran (process cases); distinct = hash of (input, configuration).", MAX_NEST, MAX_INPUT)
+    }
+    fn assumptions(&self) -> Vec<String> {
+        vec![
+            format!("nesting is bounded by {} (measured: the parser dependency overflows an 8 MiB stack between 200 and 400 nested `do` blocks); deeper inputs are outside the claim", MAX_NEST),
+            "a hang is a case exceeding 20 s of CPU time that does so again (60 s) when replayed alone in a fresh process".into(),
+            "workers run the library on a thread with an 8 MiB stack, like the CLI's main thread".into(),
+        ]
     }
     fn plan(&self, tier: Tier) -> Plan {
-        Plan { deterministic: 0, max_cases: u64::MAX, budget_s: if tier == Tier::Quick { 10.0 } else { 60.0 } }
+        let mut me = C12::default();
+        me.load();
+        let det = structural().len() + me.seeds.len().min(400);
+        Plan { deterministic: det as u64, max_cases: u64::MAX, budget_s: if tier == Tier::Quick { 45.0 } else { 900.0 } }
+    }
+    fn floors(&self, _tier: Tier) -> Vec<(String, u64)> {
+        vec![("parse_cases".into(), 5000), ("process_cases".into(), 1000), ("process:ok".into(), 300)]
     }
     fn gen(&mut self, _tier: Tier, seed: u64, index: u64) -> Option<Case> {
-        let mut r = case_rng("C12", seed, index);
-        let n = r.below(40);
-        let toks = ["local", " ", "x", "=", "1", "(", ")", "function", "end", "\n", "\"", "--[[", "]]", "{", "}", "if", "then", "..", "-", "`", "{", "\\"];
-        let mut s = String::new();
-        for _ in 0..n {
-            s.push_str(*r.pick(&toks[..]));
+        self.load();
+        let st = structural();
+        let i = index as usize;
+        if i < st.len() {
+            return Some(json!({"kind": "parse", "class": "structural", "text": st[i], "also_process": i % 3 == 0}));
         }
-        Some(json!({"kind":"parse","text":s}))
+        let i = i - st.len();
+        let nseed = self.seeds.len().min(400);
+        if i < nseed {
+            // truncation of a seed at every 1/64th of its length (one case = one seed, all cuts)
+            return Some(json!({"kind": "truncations", "text": self.seeds[i]}));
+        }
+        let mut r = case_rng("C12", seed, index);
+        match r.below(10) {
+            0 => {
+                let n = r.below(60);
+                let mut s = String::new();
+                for _ in 0..n {
+                    s.push_str(*r.pick(&FRAGMENTS));
+                    if r.chance(1, 20) {
+                        s.push_str(*r.pick(&MULTIBYTE));
+                    }
+                }
+                Some(json!({"kind": "parse", "class": "fragment-soup", "text": s}))
+            }
+            1 | 2 | 3 => {
+                let base = if r.bool() && !self.seeds.is_empty() {
+                    self.seeds[r.below(self.seeds.len())].clone()
+                } else {
+                    let mut f = Feat::default();
+                    f.luau = r.bool();
+                    f.types = f.luau && r.bool();
+                    f.max_stmts = 3 + r.below(15);
+                    print_block(&prog::generate(&mut r, f).0)
+                };
+                let text = if r.bool() { token_mutate(&mut r, &base).unwrap_or_else(|| mutate(&mut r, &base)) } else { mutate(&mut r, &base) };
+                Some(json!({"kind": "parse", "class": "mutated", "text": text, "also_process": r.chance(1, 4)}))
+            }
+            _ => {
+                // process case
+                let text = if r.chance(1, 3) && !self.seeds.is_empty() {
+                    self.seeds[r.below(self.seeds.len())].clone()
+                } else {
+                    let mut f = Feat::default();
+                    f.luau = r.bool();
+                    f.types = f.luau && r.bool();
+                    f.idioms_refactor = r.bool();
+                    f.idioms_removal = r.bool();
+                    f.inject_name = Some("INJ".into());
+                    f.max_stmts = 3 + r.below(25);
+                    let (b, _) = prog::generate(&mut r, f);
+                    if r.chance(1, 3) {
+                        super::textmon::generated_source(&mut r, true, true).0
+                    } else {
+                        print_block(&b)
+                    }
+                };
+                let (config, names) = random_pipeline(&mut r);
+                Some(json!({"kind": "process", "text": text, "config": config, "rules": names}))
+            }
+        }
     }
+
     fn run(&mut self, case: &Case, cov: &mut Cov) -> Verdict {
         let text = case["text"].as_str().unwrap_or("");
-        let ok = dl::parse(text).is_ok();
-        let _ = dl::parse_tokens(text);
-        cov.hit(if ok { "parsed" } else { "rejected" });
-        cov.eval(Some(hash64(text.as_bytes())));
-        if cov.want_sample() {
-            cov.sample(json!({"text": text, "parsed": ok}));
+        match case["kind"].as_str() {
+            Some("truncations") => {
+                let n = text.len();
+                let mut parsed = 0;
+                for k in 0..=64usize {
+                    let mut cut = n * k / 64;
+                    while !text.is_char_boundary(cut) {
+                        cut -= 1;
+                    }
+                    let t = &text[..cut];
+                    let a = dl::parse(t).is_ok();
+                    let _ = dl::parse_tokens(t);
+                    if a {
+                        parsed += 1;
+                    }
+                    cov.eval(if a { Some(hash64(t.as_bytes())) } else { None });
+                }
+                cov.add("parse_cases", 65);
+                cov.add("truncations_parsed", parsed);
+                Verdict::Held
+            }
+            Some("process") => self.run_process(text, case["config"].as_str().unwrap_or("{}"), case, cov),
+            _ => {
+                let ok = dl::parse(text).is_ok();
+                let ok2 = dl::parse_tokens(text).is_ok();
+                cov.hit("parse_cases");
+                cov.hit(&format!("parse:{}:{}", case["class"].as_str().unwrap_or("?"), if ok { "accepted" } else { "rejected" }));
+                if ok != ok2 {
+                    cov.hit("parse:token_mode_disagrees_(accepted_only_without_tokens)");
+                }
+                cov.eval(if ok { Some(hash64(text.as_bytes())) } else { None });
+                if ok && cov.want_sample() && text.len() < 300 {
+                    cov.sample(json!({"kind": "parse", "text": text}));
+                }
+                if ok2 && case["also_process"].as_bool().unwrap_or(false) {
+                    // a parsable (possibly odd) input through the default pipeline and the three generators
+                    for g in ["'retain_lines'", "'dense'", "{ name: 'readable', column_span: 1 }"] {
+                        let rules: Vec<String> = dl::DEFAULT_RULES.iter().map(|r| format!("'{}'", r)).collect();
+                        let cfg = dl::config_json(&rules, g);
+                        if let Err((sig, detail)) = check_process(text, &cfg, cov) {
+                            return Verdict::violated(sig, detail);
+                        }
+                    }
+                }
+                Verdict::Held
+            }
         }
-        Verdict::Held
+    }
+
+    fn classify(&mut self, case: &Case, signature: &str) -> String {
+        if signature == "output-does-not-parse" {
+            // did darklua's parser accept something that is not a program for the independent parser?
+            let text = case["text"].as_str().unwrap_or("");
+            if crate::reflua::parser::parse_block(text, crate::reflua::parser::Mode::Luau).is_err() {
+                return format!("{}|input-rejected-by-the-reference-parser", signature);
+            }
+            // a `-` / `-=` token directly followed by a comment: the writers fuse them into `---...`
+            if let Ok(lx) = lex(text, true) {
+                for w in lx.tokens.windows(2) {
+                    let t = lx.text(&w[0]);
+                    if (t == "-" || t == "-=") && w[1].leading.first().map(|tr| matches!(tr.kind, crate::reflua::lexer::TriviaKind::LineComment | crate::reflua::lexer::TriviaKind::LongComment)).unwrap_or(false) {
+                        return format!("{}|minus-directly-followed-by-comment", signature);
+                    }
+                }
+            }
+        }
+        signature.to_string()
+    }
+
+    fn shrink(&mut self, case: &Case) -> Vec<Case> {
+        let text = case["text"].as_str().unwrap_or("");
+        let mut out: Vec<Value> = vec![];
+        if case["kind"] == "process" {
+            // fewer rules (the configuration is text: re-read it)
+            if let Ok(v) = json5::from_str::<Value>(case["config"].as_str().unwrap_or("{}")) {
+                if let Some(rules) = v["rules"].as_array() {
+                    if rules.len() > 1 {
+                        for i in 0..rules.len() {
+                            let mut r2 = rules.clone();
+                            r2.remove(i);
+                            let mut c2 = v.clone();
+                            c2["rules"] = json!(r2);
+                            let mut c = case.clone();
+                            c["config"] = json!(model::to_text(&c2, None));
+                            out.push(c);
+                        }
+                    }
+                }
+                if v["generator"] != json!("retain_lines") {
+                    let mut c2 = v.clone();
+                    c2["generator"] = json!("retain_lines");
+                    let mut c = case.clone();
+                    c["config"] = json!(model::to_text(&c2, None));
+                    out.push(c);
+                }
+            }
+            for s in shrink_source(text, 200) {
+                let mut c = case.clone();
+                c["text"] = json!(s);
+                out.push(c);
+            }
+        }
+        // textual halving / chunk deletion
+        let chars: Vec<char> = text.chars().collect();
+        let n = chars.len();
+        let mut size = n / 2;
+        while size >= 1 && out.len() < 600 {
+            let mut i = 0;
+            while i < n {
+                let mut v: Vec<char> = vec![];
+                v.extend_from_slice(&chars[..i]);
+                if i + size < n {
+                    v.extend_from_slice(&chars[i + size..]);
+                }
+                let mut c = case.clone();
+                c["text"] = json!(v.into_iter().collect::<String>());
+                out.push(c);
+                i += size;
+            }
+            size /= 2;
+        }
+        out
     }
 }
+
+/// one process run; Err = violation (signature, detail)
+fn check_process(text: &str, config: &str, cov: &mut Cov) -> Result<bool, (String, String)> {
+    match dl::process_one(text, config) {
+        Ok(out) => {
+            cov.hit("process:ok");
+            // the output must parse again (darklua's own parser)
+            if let Err(e) = dl::parse(&out) {
+                let first: String = e.lines().next().unwrap_or("").chars().take(160).collect();
+                return Err(("output-does-not-parse".into(), format!("process succeeded but its output is rejected by darklua's parser: {}\n--- config\n{}\n--- input\n{}\n--- output\n{}", first, config, text, out)));
+            }
+            Ok(true)
+        }
+        Err(e) => {
+            if e.starts_with("config:") {
+                cov.hit("process:configuration_rejected_(harness)");
+                return Ok(false);
+            }
+            // errors are values: formatting them must work and name the file
+            cov.hit("process:error_value");
+            if !e.contains("main.lua") && !e.contains("src") {
+                cov.hit("process:error_without_file_name_(observed)");
+            }
+            Ok(false)
+        }
+    }
+}
+
+impl C12 {
+    fn run_process(&mut self, text: &str, config: &str, case: &Case, cov: &mut Cov) -> Verdict {
+        cov.hit("process_cases");
+        if dl::parse_tokens(text).is_err() {
+            cov.hit("process:input_rejected_by_parser");
+            return Verdict::discard("darklua's parser rejects the input");
+        }
+        match check_process(text, config, cov) {
+            Ok(ran) => {
+                if let Some(a) = case["rules"].as_array() {
+                    for r in a {
+                        if let Some(n) = r.as_str() {
+                            cov.hit(&format!("rule_in_pipeline:{}", n));
+                        }
+                    }
+                }
+                cov.eval(if ran { Some(hash64(format!("{}|{}", text, config).as_bytes())) } else { None });
+                if ran && cov.want_sample() && text.len() < 300 {
+                    cov.sample(json!({"kind": "process", "text": text, "config": config}));
+                }
+                Verdict::Held
+            }
+            Err((sig, detail)) => Verdict::violated(sig, detail),
+        }
+    }
+}
+
 #[allow(dead_code)]
-fn _unused(_: Rng, _: Value) {}
+fn _unused(_: Rng) {}
